@@ -69,6 +69,8 @@ impl TombstoneLog {
     ) -> Result<Self> {
         let mut recovered = vec![];
 
+        // Start address of the current partition in the log's global address space.
+        let mut base = 0;
         for partition in partitions.iter() {
             for offset in (0..partition.size()).step_by(PAGE) {
                 tracing::trace!(offset, "[tombstone log]: recover at");
@@ -83,7 +85,7 @@ impl TombstoneLog {
                     let tombstone = Tombstone::read(buf);
                     if tombstone.sequence > seq {
                         seq = tombstone.sequence;
-                        addr = slot * Tombstone::SERIALIZED_LEN;
+                        addr = base + offset + slot * Tombstone::SERIALIZED_LEN;
                     }
                     if tombstone.sequence == 0 {
                         continue;
@@ -91,6 +93,7 @@ impl TombstoneLog {
                     recovered.push((tombstone, addr));
                 }
             }
+            base += partition.size();
         }
 
         tracing::trace!(?recovered, "[tombstone log]: recovered tombstones");
